@@ -79,9 +79,15 @@ package node
 //@   requires @nonneg balNonNeg(Lbal)
 //@   requires @burn_parses validFA(GlobalBurnAddress)
 //@   requires @nonempty len(txBatch.Transactions) > 0
+//@   requires @validated validatedAt(txBatch, wrap_int32(currentHeight))
+//@   requires @conversions_need_rates (exists k int :: 0 <= k && k < len(txBatch.Transactions) && isConv(txBatch.Transactions[k])) ==> rates != nil && len(rates) > 0
+//@   requires @status statusInv(Lexec, Lrel, Lhist) && Lhist[*txBatch.Entry.Hash] && currentHeight > 0
+//@   requires @rates_of_executing_block (exists k int :: 0 <= k && k < len(txBatch.Transactions) && isConv(txBatch.Transactions[k])) ==> ratesOf(rates, Lrate, currentHeight) && Lrated[currentHeight]
+//@   requires @averages_at_last_rated_block (exists k int :: 0 <= k && k < len(txBatch.Transactions) && isConv(txBatch.Transactions[k])) ==> avgOf(averages, lastRatedBefore(Lrated, currentHeight))
 //@   let H = *txBatch.Entry.Hash
 //@   let txs = txBatch.Transactions
 //@   modifies Lbal, Lsupply, Lrel, Lexec, LtoAmt
+//@   ensures @status err == nil || isRejectErr(err) ==> statusInv(Lexec, Lrel, Lhist)
 //@   ensures @reject_leaves_ledger_untouched isRejectErr(result) ==> Lbal == old(Lbal) && Lsupply == old(Lsupply) && Lrel == old(Lrel) && Lexec == old(Lexec) && LtoAmt == old(LtoAmt)
 //@   ensures @nil_is_applied_or_untouched result == nil ==> (Lrel[H] && Lexec == upd(old(Lexec), H, currentHeight) && Lbal == old(batchBal(Lbal, txs, len(txs), currentHeight, rates, averages, burnAddrAt(currentHeight)))) || (Lbal == old(Lbal) && Lsupply == old(Lsupply) && Lrel == old(Lrel) && Lexec == old(Lexec))
 //@   ensures @applied_implies_admissible result == nil && Lrel[H] ==> (forall k int :: 0 <= k && k < len(txs) ==> old(admissible(txs, k, currentHeight, rates)))
@@ -101,3 +107,49 @@ package node
 //@   loop 2 invariant @inputs_present forall k int :: 0 <= k && k < len(txs) ==> dom(balances)[old(txs[k].Input.Address)]
 //@   loop 3 invariant @inner_maps balances != nil && fresh(balances) && (forall a factom.FAAddress :: dom(balances)[a] ==> vals(balances)[a] != nil && fresh(vals(balances)[a]))
 //@   loop 3 invariant @inputs_present forall k int :: 0 <= k && k < len(txs) ==> dom(balances)[old(txs[k].Input.Address)]
+//@
+//@ // ---- a block of transaction entries (C05 C06 C07 C17 C08) ------------------------------------
+//@ func (*Pegnetd).ApplyTransactionBlock
+//@   props C05 C06 C07 C17 C10
+//@   requires @wellformed eblock != nil && d.Pegnet != nil && eblock.Height > 0 && (forall k int :: 0 <= k && k < len(eblock.Entries) ==> eblock.Entries[k].Hash != nil)
+//@   requires @nonneg balNonNeg(Lbal)
+//@   requires @status statusInv(Lexec, Lrel, Lhist)
+//@   requires @burn_parses validFA(GlobalBurnAddress)
+//@   modifies Lbal, Lsupply, Lrel, Lexec, LtoAmt, Lhist, Lhold
+//@   ensures @status err == nil ==> statusInv(Lexec, Lrel, Lhist)
+//@   ensures @never_negative err == nil ==> balNonNeg(Lbal)
+//@   loop 1 invariant @status statusInv(Lexec, Lrel, Lhist)
+//@   loop 1 invariant @nonneg balNonNeg(Lbal)
+//@   loop 1 preserves old
+//@
+//@ // ---- conversions in holding (C06 C07 C13 C16 C17) ----------------------------------------------
+//@ // avgOf(m, h): m holds the per-asset averages over the averaging window that ends at height h
+//@ spec func avgOf(m gomap[fat2.PTicker]uint64, h int) bool
+//@
+//@ func (*Pegnetd).GetPegNetRateAverages
+//@   trusted
+//@   modifies d.LastAveragesData, d.LastAverages, d.LastAveragesHeight
+//@   ensures typeis(Avg, "map[fat2.PTicker]uint64") && avgOf(unbox(Avg, "map[fat2.PTicker]uint64"), height)
+//@
+//@ func (*Pegnetd).recordPegnetRequests
+//@   trusted
+//@   modifies Lbal, Lsupply, LtoAmt, Lrefund, LbankUsed, LbankReq
+//@   ensures !isRejectErr(result)
+//@   ensures result == nil ==> balNonNeg(Lbal)
+//@
+//@ func (*Pegnetd).ApplyTransactionBatchesInHolding
+//@   props C06 C07 C13 C17 C10 C16
+//@   requires @wellformed d.Pegnet != nil && currentHeight > 0
+//@   requires @block_is_rated rates != nil && len(rates) > 0 && ratesOf(rates, Lrate, currentHeight) && Lrated[currentHeight]
+//@   requires @nonneg balNonNeg(Lbal)
+//@   requires @status statusInv(Lexec, Lrel, Lhist) && holdInv(Lhold, Lhist)
+//@   requires @burn_parses validFA(GlobalBurnAddress)
+//@   modifies Lbal, Lsupply, Lrel, Lexec, LtoAmt, Lrefund, LbankUsed, LbankReq, d.LastAveragesData, d.LastAverages, d.LastAveragesHeight
+//@   ensures @status err == nil ==> statusInv(Lexec, Lrel, Lhist)
+//@   ensures @never_negative err == nil ==> balNonNeg(Lbal)
+//@   loop 1 invariant @window lastRatedBefore(Lrated, currentHeight) <= i && i <= currentHeight && height == lastRatedBefore(Lrated, currentHeight)
+//@   loop 1 invariant @status statusInv(Lexec, Lrel, Lhist) && holdInv(Lhold, Lhist) && balNonNeg(Lbal)
+//@   loop 1 invariant @averages avgOf(averages, lastRatedBefore(Lrated, currentHeight))
+//@   loop 2 invariant @window lastRatedBefore(Lrated, currentHeight) <= i && i < currentHeight
+//@   loop 2 invariant @status statusInv(Lexec, Lrel, Lhist) && holdInv(Lhold, Lhist) && balNonNeg(Lbal)
+//@   loop 2 invariant @batches forall k int :: 0 <= k && k < len(txBatches) ==> txBatches[k] != nil && txBatches[k].Entry.Hash != nil && tickersInRange(txBatches[k].Transactions) && Lhold[*txBatches[k].Entry.Hash] == i
